@@ -2,6 +2,7 @@
 from __future__ import annotations
 
 import itertools
+import os
 import random
 from fractions import Fraction
 
@@ -249,6 +250,8 @@ def run(res, tier="quick", seed=0, widen=False):
             res.violations.append(dict(sig=dict(level="api", stream="magnitudes", kind=kind, what="drift"), case=case, observed=str([(b[0], b[1]) for b in bad]), expected=str([(b[0], b[2]) for b in bad]),
                                        what="rolling " + kind + " differs from the sum of the values in the window by more than the rounding of that sum (a value that left the window still shows)"))
 
+    float_model_stream(res, rng, tier)
+
     # ---- very long windows
     for window in ([32767, 32768, 40000] if tier == "thorough" else [32768]):
         n = window + 50
@@ -263,6 +266,58 @@ def run(res, tier="quick", seed=0, widen=False):
         if np.isnan(out[window - 1:]).any() or out[-1] != float(window - 1):
             res.violations.append(dict(sig=dict(level="kernel", kind="max", what="long-window"), case=dict(window=window), observed=str(out[-3:]),
                                        expected=str(window - 1), what="rolling max wrong for a very long window"))
+
+
+def float_model_stream(res, rng, tier):
+    """Tie A in IEEE-754: the real kernel (one group) against Model/RollingFloat.v, a bit-exact transcription in Coq's primitive
+    floats, evaluated by vm_compute in one coqc call.  Values of every magnitude, infinities, overflow, NaN; the outputs of the
+    kernel are handed to Coq as hexadecimal literals and compared there bit for bit (NaN = NaN)."""
+    import subprocess
+    from groupby_lib.groupby import numba as nbf
+    from ..common import VERIF, COQ
+    alpha = [float("nan"), 1.0, 2.5, -3.0, 0.5, 0.1, 0.7, 4.0, 1e16, -1e16, 1e8 + 0.1, float(2**60), 3e12 + 0.25, -7e15, float("inf"), float("-inf"), 1e308, -1e308, 5e-324, -0.0, 1e-300]
+
+    def lit(x):
+        if x != x:
+            return "nan"
+        if x == float("inf"):
+            return "infinity"
+        if x == float("-inf"):
+            return "neg_infinity"
+        h = float(x).hex()
+        return "(" + h + ")" if h.startswith("-") else h
+    cases = []
+    for t in range(400 if tier == "quick" else 4000):
+        L = rng.randint(1, 16)
+        big = rng.random() < 0.6
+        vals = [rng.choice(alpha if big else alpha[:8]) for _ in range(L)]
+        window = rng.randint(1, 5)
+        mp = rng.randint(1, window)
+        mean = rng.random() < 0.5
+        arr = np.array(vals, dtype="float64")
+        f = nbf.rolling_mean if mean else nbf.rolling_sum
+        out = np.asarray(f(np.zeros(L, dtype="int64"), arr, 1, window, min_periods=mp), dtype="float64")
+        cases.append((window, mp, mean, vals, out.tolist()))
+        res.note_case(repr(("float-model", window, mp, mean, [lit(v) for v in vals])), True)
+        res.count("stream", "float-model")
+    d = VERIF / ".cache" / "rfloat" / str(os.getpid())
+    d.mkdir(parents=True, exist_ok=True)
+    body = ";\n  ".join(f"({w}%nat, {mp}%Z, {'true' if mean else 'false'}, [{'; '.join(lit(v) for v in vals)}], [{'; '.join(lit(v) for v in outs)}])" for w, mp, mean, vals, outs in cases)
+    (d / "cases.v").write_text("From Coq Require Import List ZArith PrimFloat.\nFrom GL Require Import Model.RollingFloat.\nImport ListNotations.\nOpen Scope float_scope.\n"
+                               "Definition cases : list (nat * Z * bool * list float * list float) :=\n  [" + body + "].\nEval vm_compute in map check_case cases.\n")
+    p = subprocess.run(["timeout", "600", "coqc", "-Q", str(COQ / "theories"), "GL", "cases.v"], cwd=d, stdout=subprocess.PIPE, stderr=subprocess.STDOUT)
+    txt = p.stdout.decode(errors="replace")
+    flags = [w for w in txt.replace("[", " ").replace("]", " ").replace(";", " ").split() if w in ("true", "false")]
+    for f in d.iterdir():
+        f.unlink()
+    d.rmdir()
+    if p.returncode != 0 or len(flags) != len(cases):
+        res.model_mismatches.append(dict(case="float-model", impl="-", model=f"coqc failed or printed {len(flags)} results for {len(cases)} cases: " + txt[-400:]))
+        return
+    for (w, mp, mean, vals, outs), ok in zip(cases, flags):
+        if ok != "true":
+            res.model_mismatches.append(dict(case=dict(stream="float-model", window=w, min_periods=mp, mean=mean, values=[lit(v) for v in vals]), impl=str([lit(v) for v in outs]),
+                                             model="Model/RollingFloat.rolling_float gives another bit pattern"))
 
 
 def replay(payload):
